@@ -179,6 +179,12 @@ def check(ctx, fm, idx):
 
 
 def run(ctx: C.Ctx):
+    from .. import shapes_static, translate_recon
+    shapes_static.run_with_translation(ctx, translate_recon, "Recon", "reconstruction-formula", lambda: _run(ctx),
+                                       "regenerated from SSPOR.predict / _square_predict / _rectangular_predict: dispatch and formulas = predictExact")
+
+
+def _run(ctx: C.Ctx):
     rng = ctx.rng
     for idx in range(ctx.scale(100, 1500)):
         fm = recon.gen_model(ctx, rng, want_tall=rng.random() < 0.8)
